@@ -110,7 +110,9 @@ func (eng *RedisEmu) RequestTermination() {
 
 // registers a connection accepted by this instance; false when terminating
 func (eng *RedisEmu) trackConn(connection net.Conn, dispatcher *cmdDispatcher) {
+	simBeforeLock(&eng.mu, "eng.mu")
 	eng.mu.Lock()
+	defer simAfterUnlock(&eng.mu, "eng.mu")
 	defer eng.mu.Unlock()
 
 	if eng.stopping {
@@ -121,9 +123,11 @@ func (eng *RedisEmu) trackConn(connection net.Conn, dispatcher *cmdDispatcher) {
 	eng.wg.Add(1)
 	var cc *clientCxn
 	cc = newClientCxn(eng.l, connection, dispatcher, func() {
+		simBeforeLock(&eng.mu, "eng.mu")
 		eng.mu.Lock()
 		delete(eng.conns, cc)
 		eng.mu.Unlock()
+		simAfterUnlock(&eng.mu, "eng.mu")
 		eng.wg.Done()
 	})
 	if eng.conns == nil {
